@@ -265,6 +265,19 @@ func (env *SpecEnv) evalIdent(name string) Val {
 		if v, ok := g[name]; ok {
 			return v
 		}
+		if ct, ok := env.st.eng.chanGhostT[name]; ok || strings.HasPrefix(name, "$spawns_") {
+			if !ok {
+				ct = tInt
+			}
+			if env.cur != nil {
+				v := Val{T: ct}
+				for _, l := range shapeOf(ct) {
+					v.Terms = append(v.Terms, env.st.ghostConst(name, l))
+				}
+				return v
+			}
+			return env.st.ghostGet(name, ct)
+		}
 		if tt, ok := env.st.eng.ghostDecls[name]; ok {
 			t := env.resolveTypeIn(tt, env.st.eng.ghostPkg[name])
 			if env.cur != nil {
